@@ -815,6 +815,12 @@ func c15R7(a *A) {
 					if l := res.get(ce.Cond); l.k == cst {
 						continue
 					}
+					if bo, ok := ce.Cond.(*ssa.BinOp); ok {
+						if e, ok := t.leqZero(bo, !ce.Val); ok {
+							failConds = append(failConds, e+" <= 0")
+							continue
+						}
+					}
 					failConds = append(failConds, condTerm(t, ce.Cond))
 				}
 			}
@@ -833,8 +839,10 @@ func c15R7(a *A) {
 		okBound := true
 		if cs.n > 0 {
 			okBound = false
+			// "the highest index read, pos+n, is out of range": pos+n >= len(data), i.e. len(data)-pos-n <= 0
+			want := affAtom("len(data)").add(affAtom("pos"), -1).add(affConst(cs.n), -1).String() + " <= 0"
 			for _, c := range failConds {
-				if c == fmt.Sprintf("(pos+%d >= len(data))", cs.n) || c == fmt.Sprintf("(len(data) <= pos+%d)", cs.n) {
+				if c == want {
 					okBound = true
 				}
 			}
